@@ -756,3 +756,135 @@ pub fn history(cx: &mut SCtx, maxops: u64) {
     LIVE.with(|l| l.borrow_mut().clear());
     let _ = &PEND;
 }
+
+/// Zero-sized elements (HashSet<()>): at most one element, but every structural path exists
+/// (the old table's cached iterator cannot be told about a removal for a ZST: defect D2).
+pub fn zst_history(cx: &mut SCtx, maxops: u64) {
+    type Z = HashSet<(), HB>;
+    let mut sets: Vec<Option<Z>> = vec![None, None];
+    let state = |m: Option<&Z>| -> String {
+        match m {
+            None => "gone".into(),
+            Some(m) => {
+                let s = m.verif_state();
+                match s.old {
+                    None => format!("{} {} {} -", s.main_len, s.main_cap, s.main_buckets),
+                    Some((l, b, c)) => format!("{} {} {} {} {} {}", s.main_len, s.main_cap, s.main_buckets, l, b, c),
+                }
+            }
+        }
+    };
+    let mut refs = [false, false];
+    let mut n = 0u64;
+    while n < maxops {
+        n += 1;
+        let s = cx.rng.below(2) as usize;
+        if sets[s].is_none() {
+            let cap = [0usize, 0, 1, 3, 14][cx.rng.below(5) as usize];
+            let id = 1 + cx.rng.below(3);
+            cx.opi += 1;
+            WHERE.with(|w| *w.borrow_mut() = format!("history={} op#{}", cx.hist_id, cx.opi));
+            writeln!(cx.out, "O new {} {} {}", s, id, cap).unwrap();
+            arm(None);
+            sets[s] = Some(Z::with_capacity_and_hasher(cap, HB { kind: 0, id }));
+            let c = disarm();
+            cx.tab_allocs += c.allocs;
+            cx.tab_frees += c.frees;
+            writeln!(cx.out, "R U\nS {} {}\nL {} {} {} 0 0\nE", s, state(sets[s].as_ref()), c.hashes, c.allocs, c.frees).unwrap();
+            refs[s] = false;
+            continue;
+        }
+        let (toks, kind): (String, u64) = match cx.rng.below(12) {
+            0..=2 => (format!("ins {} 0 0 0", s), 0),
+            3..=4 => (format!("rem {} 0 0", s), 1),
+            5 => (format!("rem {} 1 0", s), 2),
+            6 => (format!("get {} 2 0 0", s), 3),
+            7 => { let a = cx.rng.below(40); (format!("reserve {} {}", s, a), 4 + (a << 8)) }
+            8 => { let a = cx.rng.below(20); (format!("shrink {} {}", s, a), 5 + (a << 8)) }
+            9 => (format!("clear {}", s), 6),
+            10 => (format!("iter {} 0 0", s), 7),
+            _ => (format!("drop {}", s), 8),
+        };
+        cx.opi += 1;
+        WHERE.with(|w| *w.borrow_mut() = format!("history={} op#{}", cx.hist_id, cx.opi));
+        cx.bump(&format!("op:zst{}", kind & 0xff));
+        let had_old = sets[s].as_ref().unwrap().verif_state().old;
+        writeln!(cx.out, "O {}", toks).unwrap();
+        if kind & 0xff == 7 {
+            let inmain = { let mut v = Vec::new(); sets[s].as_ref().unwrap().verif_for_each(|im, _| if im { v.push(0u64) }); v };
+            writeln!(cx.out, "P {}", nlist(&inmain)).unwrap();
+        }
+        arm(None);
+        let arg = (kind >> 8) as usize;
+        let r = catch_unwind(AssertUnwindSafe(|| {
+            let m = sets[s].as_mut().unwrap();
+            match kind & 0xff {
+                0 => Out::OV(if m.insert(()) { None } else { Some(0) }),
+                1 => Out::OV(if m.remove(&()) { Some(0) } else { None }),
+                2 => Out::OKV(m.take(&()).map(|_| (0, 0))),
+                3 => Out::B(m.contains(&())),
+                4 => { m.reserve(arg); Out::U }
+                5 => { if arg == 0 { m.shrink_to_fit() } else { m.shrink_to(arg) }; Out::U }
+                6 => { m.clear(); Out::U }
+                7 => Out::L(m.iter().map(|_| (0, 0, 0)).collect()),
+                _ => Out::U,
+            }
+        }));
+        if kind & 0xff == 8 {
+            sets[s] = None;
+        }
+        let c = disarm();
+        cx.tab_allocs += c.allocs;
+        cx.tab_frees += c.frees;
+        let out = match r { Ok(o) => o, Err(p) => Out::P(classify_panic(&*p)) };
+        writeln!(cx.out, "R {}", out_str(&out)).unwrap();
+        writeln!(cx.out, "S {} {}", s, state(sets[s].as_ref())).unwrap();
+        if let Some(m) = sets[s].as_ref() {
+            if let Some((ol, ob, _)) = m.verif_state().old {
+                let newold = match had_old { None => true, Some((bl, bb, _)) => ol > bl || ob != bb || kind & 0xff == 4 };
+                if newold {
+                    let q: Vec<u64> = (0..ol).map(|_| 0).collect();
+                    writeln!(cx.out, "Q {}", nlist(&q)).unwrap();
+                }
+            }
+        }
+        writeln!(cx.out, "L {} {} {} 0 0\nE", c.hashes, c.allocs, c.frees).unwrap();
+        // reference: a set of units
+        let want = match kind & 0xff {
+            0 => { let w = Out::OV(if refs[s] { Some(0) } else { None }); refs[s] = true; w }
+            1 => { let w = Out::OV(if refs[s] { Some(0) } else { None }); refs[s] = false; w }
+            2 => { let w = Out::OKV(if refs[s] { Some((0, 0)) } else { None }); refs[s] = false; w }
+            3 => Out::B(refs[s]),
+            6 => { refs[s] = false; Out::U }
+            7 => Out::L(if refs[s] { vec![(0, 0, 0)] } else { vec![] }),
+            8 => { refs[s] = false; Out::U }
+            _ => Out::U,
+        };
+        if cx.monitors {
+            if let Out::P(ref cl) = out {
+                vio("C05", format!("a set of zero-sized elements panicked ({}) in [{}]", cl, toks));
+                vio("C13", format!("a set of zero-sized elements panicked ({}) in [{}]", cl, toks));
+                cx.abort = true;
+                break;
+            } else if out != want {
+                vio("C13", format!("HashSet<()>: [{}] returned [{}], a reference set gives [{}]", toks, out_str(&out), out_str(&want)));
+            }
+            if let Some(m) = sets[s].as_ref() {
+                let st = m.verif_state();
+                if m.len() != refs[s] as usize || m.len() != st.main_len + st.old.map_or(0, |o| o.0) {
+                    vio("C13", format!("HashSet<()>: len() {} after [{}], the reference holds {}", m.len(), toks, refs[s] as usize));
+                }
+                if let Some((ol, _, cur)) = st.old {
+                    if ol != cur {
+                        vio("C05", format!("HashSet<()>: cached iterator believes {} left, old table holds {} after [{}]", cur, ol, toks));
+                    }
+                }
+            }
+        }
+    }
+    if cx.abort {
+        for s in sets.iter_mut() {
+            std::mem::forget(s.take());
+        }
+    }
+}
